@@ -34,6 +34,8 @@ Contract file directives (one per line, everything up to the next `//@` line is 
   //@ fmt                                 text layer: rewrite every format!(LIT, args…) of this file's verified functions into a
                                           generated helper `__vfmt_k(&(args)…)` whose external body is the same format! call and
                                           whose ensures spells out the literal (N4)
+  //@ hoist "<expr>" => "<call>" as <name> in <qual>   replace the (whitespace-insensitive) expression by a call; an //@ append
+                                          payload defines the callee as external_body with `@HOISTED(name)@` as its body (N5)
   //@ optional                            (prefix line) the next directive may miss its anchor silently
 
 Inside payloads a comment line `//# <clause-id> [TAG TAG …] free text` names the obligation that
@@ -412,6 +414,7 @@ def annotate(repo, contracts, out):
     clauses = {}
     notes = dict(normalisations=[], external_body=[], wrapped=[], under_contract=[], lost_optional=[], fmt_helpers=[])
     fmt_files = set()
+    hoisted = {}
     cur = None
     tops, appends, crate_tops = {}, {}, {}
     for d in directives:
@@ -574,6 +577,23 @@ def annotate(repo, contracts, out):
                         k += 1
                 notes['normalisations'].append(dict(file=cur.rel, old='_ (parameter pattern)', new='_pN', count=k, scope=f.qual))
                 continue
+            m = re.match(r'hoist\s+' + _q + r'\s*=>\s*' + _q + r'\s+as\s+(\w+)\s+in\s+(.+)$', head)
+            if m:
+                # N5: a sub-expression the verifier cannot read is hoisted, text unchanged, into an external function
+                old, new, hname = unq(m.group(1)), unq(m.group(2)), m.group(3)
+                f = cur.fn(m.group(4).strip())
+                lo, hi = cur.toks[f.fn_tok].pos, cur.toks[f.body_close].end
+                body = cur.src[lo:hi]
+                # match modulo whitespace
+                pat = r'\s*'.join(re.escape(x) for x in re.findall(r'\S+', old))
+                ms = list(re.finditer(pat, body))
+                if len(ms) != 1:
+                    raise Lost('%s: hoisted expression %r occurs %d times in `%s`' % (cur.rel, old[:40], len(ms), f.qual))
+                cur.add(lo + ms[0].start(), lo + ms[0].end(), new, [dict(kind='normalisation', old=old, new=new)])
+                hoisted[hname] = body[ms[0].start():ms[0].end()]
+                notes['normalisations'].append(dict(file=cur.rel, old=old, new=new, count=1, scope=f.qual,
+                                                    note='hoisted into external fn with identical text'))
+                continue
             m = re.match(r'replace\s+(\d+)\s+' + _q + r'\s*=>\s*' + _q + r'(?:\s+in\s+(.+))?$', head)
             if m:
                 cnt, old, new = int(m.group(1)), unq(m.group(2)), unq(m.group(3))
@@ -627,6 +647,8 @@ def annotate(repo, contracts, out):
         app_text, app_orig = '\n', [dict(kind='wrapper')]
         for d in appends.get(rel, []):
             t, o = payload_text(d, clauses)
+            for hn, htext in hoisted.items():
+                t = t.replace('@HOISTED(%s)@' % hn, ' '.join(htext.split()))
             app_text += t
             app_orig += o
         if fmt_helper_text.get(rel):
